@@ -27,7 +27,7 @@ CHECKS = {
  'C08': dict(cat='exploration', eng='E3', tech='exhaustive enumeration of texts x every cursor position (generated programs, typing-state mutations, real files), totality oracle',
    text='Every (text, line, col) within the listed spaces gets a well-formed answer or SyntaxError exactly when ast.parse fails.', note='per-call watchdog 20 s is "does not terminate".', ref='4 C08'),
  'C09': dict(cat='model_checking', eng='E2', tech='explicit-state BFS over edit/touch/request histories on a real long-lived Project on a real directory, state = disk versions + cache fingerprint, oracle = fresh Project',
-   text='All histories to closure of the (finite) cache state space for every chain of import edge kinds; every request equals the same request on a fresh Project.', note='mtimes set from a logical clock; state abstraction argued in DESIGN 4 C09.', ref='4 C09'),
+   text='All histories to closure of the (finite) cache state space for every chain of import edge kinds, with and without an import cycle; every request equals the same request on a fresh Project.', note='mtimes set from a logical clock; state abstraction argued in DESIGN 4 C09.', ref='4 C09'),
  'C10': dict(cat='exploration', eng='E3', tech='exhaustive product of binding kind x scope kind x name shape x read/unread, compared with the syntactic exemption rule',
    text='Full product plus real corpus; set of W01/W02 equals the reference rule.', note='reference = the rule of the statement evaluated on the AST.', ref='4 C10'),
  'C11': dict(cat='exploration', eng='E3', tech='exhaustive enumeration of layout variants per binding kind + complete corpus; token at reported position must be the identifier',
@@ -40,7 +40,7 @@ CHECKS = {
    text='Every space is finite and visited completely; reference codec decides validity.', note='mc/refmsgpack.py is trusted to implement the spec; 4 GiB payloads not enumerated.', ref='4 C14'),
  'C15': dict(cat='model_checking', eng='E2+E1', tech='explicit-state search over request sequences on the real client+server joined by an in-memory connection; environment-answer deviations bounded 0..2; real-subprocess conformance runs',
    text='All request sequences up to the bound and all single/double environment faults; each reply equals the in-process API.', note='in-memory connection re-enters Server.run per request (the loop keeps no state between iterations).', ref='4 C15'),
- 'C16': dict(cat='model_checking', eng='E1', tech='stateless exploration of all thread interleavings at source-line granularity of supp/remote.py under a controlled scheduler, iterative preemption bounding; fakes for Popen/Client/time/Lock/Thread; real-subprocess fault points',
+ 'C16': dict(cat='model_checking', eng='E1', tech='stateless exploration of all thread interleavings at source-line granularity of supp/remote.py under a controlled scheduler, iterative preemption bounding, plus an unbounded search with state matching for the scenarios whose state space closes; waits with a timeout are choice points; fakes for Popen/Client/time/Lock/Thread; real-subprocess fault points',
    text='All schedules of 2-3 user threads within the preemption bound; exactly one Popen, no handshake exception, every call answered; close/disconnect end the server.', note='line granularity (GIL) is the atomicity model; fakes stand for process launch and connection.', ref='4 C16'),
  'C17': dict(cat='model_checking', eng='E1', tech='exhaustive exploration of every iteration order of every set built inside supp (ChoiceSet), plus a reproducible real-process grid (hash seed x prior allocation, ASLR off)',
    text='All permutations of all sets met by each request; one distinct output allowed, alternatives in source order.', note='every order source in supp is a set (grep); the real-process grid is the safety net.', ref='4 C17'),
